@@ -32,6 +32,13 @@ import LitexProofs.Wishbone.InterconnectSoc
       respAfterData  B is given only after the data                                                    (AXI)
   and cover AXI-Lite transfers and AXI4 write bursts (`c.wlast` = where `last` sits in the packed payload).  The theorems about the read direction of the AXI4 classes count responses on `last` (`c.full`).
 
+  CLOSED SYSTEM (`axl_closed_*`, `axl_end_to_end_*`, `axl_soc_end_to_end_partial`): `EnvOK` is not an assumption of the
+  final statements — it is derived, for every schedule, from rules each master / slave follows on its own port
+  (`LocalOK`: a master with unanswered requests stays with the slave of its last accepted address; a slave answers only
+  requests it holds and accepts at most 255), and `Disjoint` is derived from an accepted SoC region list.  What remains
+  assumed: NoDataBeforeAddr (open finding), ≤ 255 requests held per slave (the counters do not guard themselves:
+  saturation witnesses), a healthy bus where a finite timeout is configured.
+
   The property as written ("each accepted address reaches the slave chosen by its address … for all schedules") is
   FALSE on the code without `sameSlave`, and the write-data part is false without NoDataBeforeAddr: see the two
   negative witnesses at the end (both are known findings, replayed on the real code by `harness/props/c08.py`).
@@ -68,7 +75,8 @@ import LitexProofs.Wishbone.InterconnectSoc
                                                      (`*Pay` = all pass-through fields)                                                constructor arguments)
   r.last-qualified read release (AXI4), w.last      `gated` (= full && rd), `c.wlast`    axl_read_burst_holds_lock, axl_read_burst_    A (AXI4 read letters carry last),
                                                                                           beat_keeps_entry, data theorems              B bursts 1..4 beats
-  id / dest / user / first / last side-bands        packed in `*Pay` at full width       axl_id_preserved(_run)                       B id_width 4 (after fix 1eff3cf)
+  id / dest / user / first / last side-bands        packed in `*Pay` at full width       axl_id_preserved(_run)                       B id_width 4 (after fix 1eff3cf); masters
+                                                                                                                                       with UNEQUAL id widths: direct id check
   SoCBusHandler.do_finalize (soc.py; standard       SocAxi.fabric / SocAxi.cfg over      axl_soc_fabric_p2p_iff, axl_soc_fabric_      P fabric class vs SocAxi.fabric,
     "axi-lite" / "axi": P2P / Shared / Crossbar,     b-c06's busTopology (shared model    decoded, axl_soc_closed_route,               B through real SoCBusHandlers
     SoCRegion.decoder, timeout, register)            of the one do_finalize statement)    axl_soc_accepted_disjoint_partial,           (`open socaxi`, model picks the fabric)
@@ -426,6 +434,28 @@ theorem axl_rw_closed (c : Cfg) (hd : Disjoint c) (hn : 0 < c.n) (ins : List Bus
   ⟨fun h => ⟨(axl_closed_shared c false hd hn _ h).2, (axl_rw_independent _ _ ins).1⟩,
    fun h => ⟨(axl_closed_shared c true hd hn _ h).2, (axl_rw_independent _ _ ins).2.1⟩⟩
 
+/-- … the same for the crossbar. -/
+theorem axl_rw_closed_crossbar (c : Cfg) (hd : Disjoint c) (hn : 0 < c.n) (ins : List BusIn) :
+    (LocalAll (Crossbar.machine c false) c false (Crossbar.init c false) (fun _ => {}) (fun _ => 0) (ins.map wIn) →
+       Guar (Crossbar.machine c false) c false false (Crossbar.init c false) Fifo.empty (ins.map wIn) ∧
+       ((Crossbar.full c).run ins).w = (Crossbar.machine c false).run (ins.map wIn)) ∧
+    (LocalAll (Crossbar.machine c true) c true (Crossbar.init c true) (fun _ => {}) (fun _ => 0) (ins.map rIn) →
+       Guar (Crossbar.machine c true) c true false (Crossbar.init c true) Fifo.empty (ins.map rIn) ∧
+       ((Crossbar.full c).run ins).r = (Crossbar.machine c true).run (ins.map rIn)) :=
+  ⟨fun h => ⟨(axl_closed_crossbar c false hd hn _ h).2, (axl_rw_independent _ _ ins).1⟩,
+   fun h => ⟨(axl_closed_crossbar c true hd hn _ h).2, (axl_rw_independent _ _ ins).2.1⟩⟩
+
+/-- **`axl_closed_timeout_partial`** — the shared interconnect as users build it (finite `timeout_cycles`, the SoC default
+    is 10^6): on a healthy bus (`Shared.Healthy`, see `axl_timeout_transparent_partial`) with legal masters and slaves the
+    fabric WITH the watchdog shows, cycle for cycle, the outputs of the timeout-less fabric, and for those the routing
+    guarantee holds in every cycle.  (`_partial`: `Healthy` — a dead slave makes the watchdog answer, property C11.) -/
+theorem axl_closed_timeout_partial (c : TCfg) (rd : Bool) (hd : Disjoint c.toCfg) (hn : 0 < c.n) (ins : List DirIn)
+    (hh : Shared.Healthy c.toCfg rd c.t (Shared.init c.toCfg rd) 0 ins)
+    (hloc : LocalAll (Shared.machine c.toCfg rd) c.toCfg rd (Shared.init c.toCfg rd) (fun _ => {}) (fun _ => 0) ins) :
+    (SharedT.machine c rd).trace ins = (Shared.machine c.toCfg rd).trace ins ∧
+    Guar (Shared.machine c.toCfg rd) c.toCfg rd true (Shared.init c.toCfg rd) Fifo.empty ins :=
+  ⟨(axl_timeout_transparent_partial c rd ins hh).1, (axl_closed_shared c.toCfg rd hd hn ins hloc).2⟩
+
 /-- **`axl_read_burst_holds_lock`** (AXI4 read direction, `c.full`) — a read beat WITHOUT `last` retires nothing: the
     scoreboard queue of the slave is unchanged by it (so, by `axl_counter_inv_*` / `axl_lock_held_*`, counters, grant and
     select stay as they are until the beat that carries `last`). -/
@@ -648,7 +678,7 @@ theorem axl_soc_accepted_disjoint_partial (c : SocAxi) (rs : List Soc.Region) (s
 /-- **`axl_soc_end_to_end_partial`** — the whole chain: masters and slaves registered on a `SoCBusHandler` of standard
     axi-lite / axi, slave regions accepted by `check_regions_overlap`, not the one-master-one-slave-at-0 case, legal
     masters and slaves (local rules) ⇒ the interconnect `do_finalize` instantiates (`SocAxi.fabric`: shared without
-    timeout or crossbar; with a timeout see `axl_timeout_transparent_partial`) delivers every accepted address to the
+    timeout, crossbar, or — the SoC default — shared with the bus watchdog on a healthy bus) delivers every accepted address to the
     slave of the region it lies in and every response exactly once to its issuer, in every cycle of every schedule. -/
 theorem axl_soc_end_to_end_partial (c : SocAxi) (rd : Bool) (rs : List Soc.Region) (sh : Nat) (hn : c.n ≠ 0)
     (hr : c.regions = Wishbone.pairsOf rs) (hdw : c.dw / 8 = 2 ^ sh) (hsh : sh ≤ c.aw)
@@ -659,8 +689,17 @@ theorem axl_soc_end_to_end_partial (c : SocAxi) (rd : Bool) (rs : List Soc.Regio
       Guar (Shared.machine c.cfg rd) c.cfg rd true (Shared.init c.cfg rd) Fifo.empty ins) ∧
     (c.fabric = .xbar c.cfg →
       LocalAll (Crossbar.machine c.cfg rd) c.cfg rd (Crossbar.init c.cfg rd) (fun _ => {}) (fun _ => 0) ins →
-      Guar (Crossbar.machine c.cfg rd) c.cfg rd false (Crossbar.init c.cfg rd) Fifo.empty ins) :=
-  axl_soc_closed_route c rd hn (axl_soc_accepted_disjoint_partial c rs sh hr hdw hsh hacc hall) ins
+      Guar (Crossbar.machine c.cfg rd) c.cfg rd false (Crossbar.init c.cfg rd) Fifo.empty ins) ∧
+    -- the SoC default (`timeout = 10^6`): shared interconnect with the bus watchdog, on a healthy bus
+    (∀ t, c.fabric = .sharedT { toCfg := c.cfg, t := t, dw := c.dw } →
+      Shared.Healthy c.cfg rd t (Shared.init c.cfg rd) 0 ins →
+      LocalAll (Shared.machine c.cfg rd) c.cfg rd (Shared.init c.cfg rd) (fun _ => {}) (fun _ => 0) ins →
+      (SharedT.machine { toCfg := c.cfg, t := t, dw := c.dw } rd).trace ins = (Shared.machine c.cfg rd).trace ins ∧
+      Guar (Shared.machine c.cfg rd) c.cfg rd true (Shared.init c.cfg rd) Fifo.empty ins) := by
+  have hd := axl_soc_accepted_disjoint_partial c rs sh hr hdw hsh hacc hall
+  refine ⟨(axl_soc_closed_route c rd hn hd ins).1, (axl_soc_closed_route c rd hn hd ins).2, ?_⟩
+  intro t _ hh hloc
+  exact axl_closed_timeout_partial { toCfg := c.cfg, t := t, dw := c.dw } rd hd (Nat.pos_of_ne_zero hn) ins hh hloc
 
 /- Full statement for the point-to-point case (FALSE): "an address reaches the slave only if it lies in the slave's
    region".  `InterconnectPointToPoint` has no decoder (b-c06's open finding C06-p2p-partial-region-origin0; the statement
